@@ -1345,6 +1345,7 @@ func (fe *FnExec) backEdge(fr *frame, li *loopInfo, st *State) {
 		}
 		return
 	}
+	fe.errPropAtBackEdge(fr, li, st)
 	if li.spec != nil {
 		for _, inv := range li.spec.Invs {
 			ctx := fe.ctxFor(fr, st)
